@@ -32,10 +32,31 @@ class LogLFR(LinearFourRates):
         return super()._update_bounds_dict(est_rate, curr_denom, r_est_rate, r_curr_denom)
 
     def _sim_bounds(self, est_rate, denom):
+        state = np.random.get_state()
         b = super()._sim_bounds(est_rate, denom)
+        after = np.random.get_state()
         if self._vlog:
             self._vlog[-1][3] = [float(b[k]) for k in BK]
+            # the documented Monte-Carlo procedure, re-run on the same random draws by an independent implementation
+            np.random.set_state(state)
+            self._vlog[-1].append(reference_bounds(self.time_decay_factor, self.warning_level, self.detect_level,
+                                                   self.num_mc, est_rate, denom))
+            np.random.set_state(after)
         return b
+
+
+def reference_bounds(eta, warning_level, detect_level, num_mc, est_rate, denom):
+    """percentiles of (1-eta) * sum_i eta^(N-i) * Bernoulli(p), i = 1..N, over num_mc draws (lfr.py:354-412)"""
+    weights = [eta ** (denom - i) for i in range(1, denom + 1)]
+    vals = []
+    for _ in range(num_mc):
+        bools = np.random.binomial(n=1, p=est_rate, size=denom)
+        s = 0
+        for w, bl in zip(weights, bools):
+            s = s + w * bl
+        vals.append((1 - eta) * s)
+    return [float(np.percentile(vals, q=warning_level * 100)), float(np.percentile(vals, q=100 - warning_level * 100)),
+            float(np.percentile(vals, q=detect_level * 100)), float(np.percentile(vals, q=100 - detect_level * 100))]
 
 
 def make(case):
@@ -123,7 +144,11 @@ def direct_check(case, obs):
             if gated:
                 if not log:
                     return [f"step {i}: no bounds were requested for tracked rate {rt} although since={since} > burn_in and on the subsample grid"]
-                est, dn, key, sim = log.pop(0)
+                entry = log.pop(0)
+                est, dn, key, sim = entry[:4]
+                if sim is not None and len(entry) > 4 and not all(abs(a - b) <= 1e-9 * max(1.0, abs(b)) for a, b in zip(sim, entry[4])):
+                    return [f"step {i}: bounds {sim} for rate {est!r} / N={dn} are not the warning / detect level percentiles "
+                            f"of the Monte-Carlo distribution of the statistic on the same draws ({entry[4]})"]
                 if not feq(est, new[rt]) or dn != den[rt]:
                     return [f"step {i}: bounds requested for rate estimate {est!r} / denominator {dn}, but {rt} of the epoch's confusion matrix is {new[rt]!r} / {den[rt]}"]
                 ck = (key, dn)
@@ -166,7 +191,7 @@ def coq_term(case, obs):
     xs, rows = [], []
     for (yt, yp), r in zip(case["pairs"], obs["rows"]):
         orc = []
-        for est, dn, key, sim in r["log"]:
+        for est, dn, key, sim in [e[:4] for e in r["log"]]:
             s = "None" if sim is None else "(Some (mkb " + " ".join(G.flt(v) for v in sim) + "))"
             orc.append(f"({G.flt(est)}, {G.z(dn)}, {G.flt(key)}, {s})")
         xs.append(f"({G.boolc(yt)}, {G.boolc(yp)}, {G.lst(orc)})")
